@@ -410,6 +410,14 @@ func runC20(c c20Case) (bool, []string, error) {
 	reRegistered := false
 	var labels []string
 	for step, op := range c.Ops {
+		if op.LibCycle == "embedded" {
+			if err := c20EmbeddedPosition(); err != nil {
+				return true, append(labels, "embedded_position"), fmt.Errorf("step %d: %v", step, err)
+			}
+			labels = append(labels, "embedded_position")
+			nontrivial = true
+			continue
+		}
 		if op.LibCycle == "perpos" {
 			if err := c20PerPosition(step + len(c.Ops)); err != nil {
 				return true, append(labels, "per_position_schema"), fmt.Errorf("step %d: %v", step, err)
@@ -617,6 +625,92 @@ func c20PerPosition(order int) error {
 	return nil
 }
 
+// Embedded position: a field that embeds a registered type is named after the
+// type; it must carry exactly the schema, and be handled by exactly the codec,
+// that a named field of that type and name gets.
+type c20EmbedUser struct {
+	CStruct
+	X int64 `json:"x"`
+}
+type c20NamedUser struct {
+	CStruct CStruct
+	X       int64 `json:"x"`
+}
+type c20EmbedLib struct {
+	X int64 `json:"x"`
+	time.Time
+	null.Int
+	CInt
+}
+type c20NamedLib struct {
+	X    int64 `json:"x"`
+	Time time.Time
+	Int  null.Int
+	CInt CInt
+}
+
+func c20EmbeddedPosition() error {
+	for _, pair := range [][2]interface{}{{c20EmbedUser{}, c20NamedUser{}}, {c20EmbedLib{}, c20NamedLib{}}} {
+		se, err := avro.SchemaForType(pair[0])
+		if err != nil {
+			return fmt.Errorf("SchemaForType(%T): %v", pair[0], err)
+		}
+		sn, err := avro.SchemaForType(pair[1])
+		if err != nil {
+			return fmt.Errorf("SchemaForType(%T): %v", pair[1], err)
+		}
+		fe, fn := fromLib(se), fromLib(sn)
+		if len(fe.Fields) != len(fn.Fields) {
+			return fmt.Errorf("%T has fields %v; with named fields instead of embedded ones the record has %v", pair[0], fieldNames(fe), fieldNames(fn))
+		}
+		for i := range fe.Fields {
+			if fe.Fields[i].Name != fn.Fields[i].Name {
+				return fmt.Errorf("%T: field %d is named %q, the type embedded there is %q", pair[0], i, fe.Fields[i].Name, fn.Fields[i].Name)
+			}
+			if d := fe.Fields[i].Type.Diff(fn.Fields[i].Type, ""); d != "" {
+				return fmt.Errorf("%T: the embedded %s does not get the schema a named field of that type gets: %s", pair[0], fe.Fields[i].Name, d)
+			}
+		}
+	}
+	// values: written through the embedding struct and through the naming struct, the bytes are the same
+	tm := time.Date(2022, 2, 3, 4, 5, 6, 7000, time.UTC)
+	ve := c20EmbedLib{X: 5, Time: tm, Int: null.IntFrom(-9), CInt: 77}
+	vn := c20NamedLib{X: 5, Time: tm, Int: null.IntFrom(-9), CInt: 77}
+	var out [2][]byte
+	for i, v := range []interface{}{ve, vn} {
+		s, _ := avro.SchemaForType(v)
+		c, err := s.Codec(v)
+		if err != nil {
+			return fmt.Errorf("Schema.Codec(%T): %v", v, err)
+		}
+		wb := avro.NewWriteBuf(nil)
+		p := reflect.New(reflect.TypeOf(v))
+		p.Elem().Set(reflect.ValueOf(v))
+		c.Write(wb, p.UnsafePointer())
+		out[i] = append([]byte(nil), wb.Bytes()...)
+		back := reflect.New(reflect.TypeOf(v))
+		if err := c.Read(avro.NewReadBuf(out[i]), back.UnsafePointer()); err != nil {
+			return fmt.Errorf("%T: reading back: %v", v, err)
+		}
+		x := back.Elem()
+		if x.FieldByName("X").Int() != 5 || !x.FieldByName("Time").Interface().(time.Time).Equal(tm) || x.FieldByName("Int").Interface().(null.Int) != null.IntFrom(-9) || x.FieldByName("CInt").Int() != 77 {
+			return fmt.Errorf("%T: %+v read back as %+v", v, v, x.Interface())
+		}
+	}
+	if !bytes.Equal(out[0], out[1]) {
+		return fmt.Errorf("a struct embedding time.Time, null.Int and a registered type is written as % x, the same struct with named fields as % x", out[0], out[1])
+	}
+	return nil
+}
+
+func fieldNames(s ref.Schema) []string {
+	var out []string
+	for _, f := range s.Fields {
+		out = append(out, f.Name)
+	}
+	return out
+}
+
 func c20LibCycle(lib string) error {
 	var typ reflect.Type
 	var holder interface{}
@@ -692,7 +786,7 @@ func drawC20(t *rapid.T) c20Case {
 	n := gen.UniformRange(t, "nops", 1, 8)
 	for i := 0; i < n; i++ {
 		if gen.Uniform(t, "libcycle", 12) == 0 {
-			c.Ops = append(c.Ops, c20Op{LibCycle: []string{"time", "null", "perpos"}[gen.Uniform(t, "lib", 3)]})
+			c.Ops = append(c.Ops, c20Op{LibCycle: []string{"time", "null", "perpos", "embedded"}[gen.Uniform(t, "lib", 4)]})
 			continue
 		}
 		if gen.Uniform(t, "op", 3) == 0 {
